@@ -25,7 +25,7 @@ impl Property for C03 {
         "C03"
     }
     fn rule(&self) -> &'static str {
-        "profile `attribution`: 2-9 output-capable 64-bit signals (now and then two whose names differ in letter case only) (outputs and bidirectionals interleaved with inputs), 0-2 virtual signals, loop-free rows (some with C), `let` statements binding variables named like output-capable signals in a quarter of the positions, driver layout = random subset in random order, per-call values from a wide palette (arbitrary 64-bit, boundary, small, Z, X), expected entries drawn to agree with what the script returns in that call in about half of the entries and to disagree / be X / be Z otherwise. In a third of the cases another iterator over the same TestCase has run before against a driver with a different layout of the same length. In a quarter of the cases the driver fails on one call (the caller goes on; an item that is a checked row by its position must report its outputs). A row that a virtual signal turns into an error item (it read Z/X) does not end the run: the caller goes on and the rows after it are checked the same way. Oracle: for every checked row, entry.output == what the recording driver returned for that signal in that row's call (X if not in the layout); check() by an independent 3x3 table; is_checked() iff expected != X; failing_outputs() == exactly the entries that do not pass. Non-trivial: layout is a proper subset or non-identity permutation, >= 2 supplied outputs differ in some call, both verdicts occur; distinct by source + signals + driver."
+        "profile `attribution`: 2-9 output-capable signals (64 bits wide, or in half of the cases of any width: the driver's values need not fit) (now and then two whose names differ in letter case only) (outputs and bidirectionals interleaved with inputs), 0-2 virtual signals, loop-free rows (some with C), `let` statements binding variables named like output-capable signals in a quarter of the positions, driver layout = random subset in random order, per-call values from a wide palette (arbitrary 64-bit, boundary, small, Z, X), expected entries drawn to agree with what the script returns in that call in about half of the entries and to disagree / be X / be Z otherwise. In a third of the cases another iterator over the same TestCase has run before against a driver with a different layout of the same length. In a quarter of the cases the driver fails on one call (the caller goes on; an item that is a checked row by its position must report its outputs). A row that a virtual signal turns into an error item (it read Z/X) does not end the run: the caller goes on and the rows after it are checked the same way. Oracle: for every checked row, entry.output == what the recording driver returned for that signal in that row's call (X if not in the layout); check() by an independent 3x3 table; is_checked() iff expected != X; failing_outputs() == exactly the entries that do not pass. Non-trivial: layout is a proper subset or non-identity permutation, >= 2 supplied outputs differ in some call, both verdicts occur; distinct by source + signals + driver."
     }
     fn cases(&self, tier: Tier) -> u64 {
         match tier {
@@ -47,7 +47,9 @@ impl Property for C03 {
         cfg.n_out = (1, 6);
         cfg.n_bidir = (0, 2);
         cfg.interleave = true;
-        cfg.widths = Widths::All64;
+        // (half of the cases: signals of any width - the driver's values are what they are,
+        // also when they do not fit the signal they are reported for)
+        cfg.widths = if Ch::new(&s[1]).chance(1, 2) { Widths::Mixed } else { Widths::All64 };
         cfg.odd_names = true;
         cfg.omit_cols = true;
         cfg.permute_header = true;
